@@ -86,7 +86,7 @@ def vfiles():
 
 # translation obligations: definitions regenerated from /repo's source on every run (harness/translate.py) and proved equal to
 # the model by conversion; a property lists the generated files its theorems lean on
-TRANSLATED = {"C05": ["NAdvanceGen", "MultistageGen", "SeqGen", "HSeqGen", "ArgminGen", "HoptGen", "OptInfGen", "Opt0Gen", "SeqPins", "AllocPins", "HelperPins"], "C13": ["NAdvanceGen", "TwoLevelGen"], "C17": ["NAdvanceGen", "SeqGen", "HSeqGen", "ArgminGen", "HoptGen", "OptInfGen", "Opt0Gen", "MemoGen", "TabulGen", "SeqPins"], "C10": ["FinalizeGen"], "C18": ["ActValGen", "EnumPins"], "C11": ["ObserversGen", "EnumPins"],
+TRANSLATED = {"C05": ["NAdvanceGen", "MultistageGen", "SeqGen", "HSeqGen", "ArgminGen", "HoptGen", "OptInfGen", "Opt0Gen", "SeqPins", "AllocPins", "HelperPins"], "C13": ["NAdvanceGen", "TwoLevelGen"], "C17": ["NAdvanceGen", "SeqGen", "HSeqGen", "ArgminGen", "HoptGen", "OptInfGen", "Opt0Gen", "MemoGen", "TabulGen", "SeqPins", "BasicGen", "TwoLevelGen", "MultistageGen", "ConverterGen", "MixedGen", "AllocPins", "EnumPins"], "C10": ["FinalizeGen"], "C18": ["ActValGen", "EnumPins"], "C11": ["ObserversGen", "EnumPins"],
               "C01": ["BasicGen", "TwoLevelGen", "MultistageGen", "ConverterGen", "ConvertGen", "MixedGen", "SeqGen", "HSeqGen", "ArgminGen", "HoptGen", "OptInfGen", "Opt0Gen", "MemoGen", "TabulGen", "SeqPins", "AllocPins", "EnumPins"], "C02": ["BasicGen", "TwoLevelGen", "MultistageGen", "ConverterGen", "MixedGen", "SeqGen", "HSeqGen", "ArgminGen", "HoptGen", "OptInfGen", "Opt0Gen", "MemoGen", "TabulGen", "SeqPins", "AllocPins", "EnumPins"],
               "C03": ["BasicGen", "TwoLevelGen", "MultistageGen", "ConverterGen", "MixedGen", "SeqGen", "HSeqGen", "ArgminGen", "HoptGen", "OptInfGen", "Opt0Gen", "MemoGen", "TabulGen", "SeqPins", "AllocPins", "EnumPins"], "C04": ["BasicGen", "TwoLevelGen", "MultistageGen", "ConverterGen", "MixedGen", "SeqGen", "HSeqGen", "ArgminGen", "HoptGen", "OptInfGen", "Opt0Gen", "MemoGen", "TabulGen", "SeqPins", "AllocPins", "EnumPins"],
               "C08": ["BasicGen", "TwoLevelGen", "MultistageGen", "ConverterGen", "MixedGen", "SeqGen", "HSeqGen", "ArgminGen", "HoptGen", "OptInfGen", "Opt0Gen", "MemoGen", "TabulGen", "SeqPins", "AllocPins", "EnumPins"], "C09": ["BasicGen", "TwoLevelGen", "MultistageGen", "ConverterGen", "MixedGen", "SeqGen", "HSeqGen", "ArgminGen", "HoptGen", "OptInfGen", "Opt0Gen", "MemoGen", "TabulGen", "SeqPins", "AllocPins", "EnumPins"],
@@ -314,7 +314,7 @@ def load_known():
 
 
 def match_known(f, known):
-    info = oracles.case_info(f["line"])
+    info = oracles.case_info(f.get("sline") or f["line"])
     for e in known:
         if e.get("status") != "open" or e.get("property") != f["pid"]:
             continue
@@ -368,9 +368,10 @@ def replay(pid, path):
         fnd = [f for f in fnd if f["pid"] == pid] + [f for f in oracles.all_findings(slines, impl) if f["pid"] == pid]
         cid = ident
     else:
-        model, impl, errors = runner.run_all([line], jobs=1, chunks_per_job=1)
+        seq = payload.get("sequence") or [line]
+        model, impl, errors = runner.run_all(seq, jobs=1, chunks_per_job=1)
         cid = line.split()[1]
-        fnd = [f for f in oracles.all_findings([line], impl) if f["pid"] == pid]
+        fnd = [f for f in oracles.all_findings(seq, impl) if f["pid"] == pid and f["line"] == line]
         a, b = props.project(pid, cid, model.get(cid)), props.project(pid, cid, impl.get(cid))
         d = first_diff(a, b) if a != b else None
     print("case:", line)
@@ -456,9 +457,15 @@ def main():
         if new:
             new.sort(key=lambda f: case_size(f["line"]))
             f = new[0]
-            violations.append(("", dict(property=pid, case=f["line"], failing_index=f.get("index"), observed=f.get("what") or f["err"],
-                                        error=f["err"], expected="the property holds on this input",
-                                        theorem_or_component=f["cid"].split(":")[0], other_failing_cases=len(new) - 1)))
+            payload = dict(property=pid, case=f["line"], failing_index=f.get("index"), observed=f.get("what") or f["err"],
+                           error=f["err"], expected="the property holds on this input",
+                           theorem_or_component=f["cid"].split(":")[0], other_failing_cases=len(new) - 1)
+            comp = f["line"].split()[1].split(":")[0]
+            if comp.endswith(".seq"):
+                # a case of a sequence component fails because of what ran before it in the same interpreter: the replay is the sequence
+                seq = [l for l in cases if l.split()[1].split(":")[0] == comp]
+                payload["sequence"] = seq[:seq.index(f["line"]) + 1] if f["line"] in seq else seq
+            violations.append(("", payload))
         elif mism:
             mism.sort(key=lambda m: case_size(m[0]))
             l, d = mism[0]
